@@ -1,7 +1,7 @@
 (* C15 — Ping waits for its own Pong; received Pings are answered with the same payload.
    Statements only; proofs in Proofs/ReaderP.v (read side) and Proofs/PingP.v (matching, when present). *)
 From Coq Require Import List NArith ZArith Bool.
-From WS Require Import Base.Words Gen.Consts Model.Mask Model.Frame Model.Proto Model.RefDecoder Model.Reader Proofs.ReaderP.
+From WS Require Import Base.Words Gen.Consts Model.Mask Model.Frame Model.Proto Model.RefDecoder Model.Reader Model.Script Proofs.ReaderP Proofs.ReaderRefP.
 Import ListNotations.
 Open Scope N_scope.
 
@@ -13,6 +13,15 @@ Theorem C15_ping_echo : forall s h raw rest, r_closed s = false -> h_opc h = 9 -
     r_replies s' = r_replies s ++ [RpPong (if h_masked h then mask_spec (h_key h) raw else raw)] /\ r_inq s' = rest /\ r_pongs s' = r_pongs s.
 Proof. exact ping_echo. Qed.
 Print Assumptions C15_ping_echo.
+
+(* stream level: for every valid stream (any fragmentation, Pings before, between and INSIDE fragmented messages, any
+   buffer sizes, both roles) the Pongs written are exactly the Pings received — same payloads, same order — and nothing else *)
+Theorem C15_pongs_for_stream : forall cfg inflate ms sizes e,
+  Forall wf_smsg ms -> length sizes = length ms -> Forall (fun n => 0 < n)%nat sizes ->
+  let r := run cfg inflate (-1)%Z (enc_script (role_eqb (rc_role cfg) Server) ms) e (read_ops sizes) in
+  r_replies (snd r) = expected_pongs_written ms /\ r_pongs (snd r) = expected_pong_notes ms.
+Proof. intros cfg inflate ms sizes e H1 H2 H3. destruct (reader_valid_stream cfg inflate ms sizes e H1 H2 H3) as (_ & A & B & _). split; assumption. Qed.
+Print Assumptions C15_pongs_for_stream.
 
 (* a Pong — solicited or not — writes nothing, closes nothing and leaves the stream position right after it *)
 Theorem C15_pong_harmless : forall s h raw rest, r_closed s = false -> h_opc h = 10 -> h_fin h = true -> h_plen h <= 125 ->
